@@ -19,8 +19,8 @@ STUBS = []
 ASSUMES = ["inbreeding F in (0,1) symbolic or exactly 0; frequencies > 0 symbolic summing to one, or with one entry exactly 0",
            "numba's lgamma(0) = +inf (Python's math.lgamma raises); the zero-frequency obligations rely on it and are replayed on the jitted code"]
 BOUNDS = {
-    "quick": "ploidy 2..4 x alleles 2..3; assemble prior: ploidy <=4, symbolic number of haplotypes U",
-    "thorough": "ploidy 2..6 x alleles 2..4; assemble prior: ploidy <=6, symbolic U",
+    "quick": "ploidy 2..4 x alleles 2..3 and ploidy 8, 12, 13 x 2 alleles; assemble prior: ploidy <=4 and 12, symbolic number of haplotypes U",
+    "thorough": "ploidy 2..6 x alleles 2..4 and ploidy 8..24 x 2 alleles; assemble prior: ploidy <=6, 8, 12, 13, symbolic U",
 }
 
 
@@ -35,6 +35,15 @@ def configs(tier):
             for inbred in (True, False):
                 for fmode in ("flat", "sym", "zero"):
                     out.append(dict(kind="call", ploidy=p, alleles=a, inbred=inbred, freqs=fmode))
+        for inbred in (True, False):
+            out.append(dict(kind="assemble", ploidy=p, inbred=inbred))
+    # high ploidies with two alleles (pooled samples reach them): cheap -- ploidy + 1 genotypes -- and they cross any
+    # small-argument fast path / lookup table inside the factorial and permutation helpers
+    for p in ((8, 12, 13) if tier == "quick" else (8, 12, 13, 16, 20, 24)):
+        for inbred in (True, False):
+            for fmode in ("flat", "sym"):
+                out.append(dict(kind="call", ploidy=p, alleles=2, inbred=inbred, freqs=fmode))
+    for p in ((12,) if tier == "quick" else (8, 12, 13)):
         for inbred in (True, False):
             out.append(dict(kind="assemble", ploidy=p, inbred=inbred))
     return out
